@@ -60,7 +60,9 @@ class Rule_ST08(BaseRule):
             if modifier and bracketed:
                 # If there's nothing else in the expression, remove the brackets.
                 if len(expression[0].segments) == 1:
-                    anchor, seq = self._remove_unneeded_brackets(context, bracketed)
+                    unwrapped = self._remove_unneeded_brackets(context, bracketed)
+                    if unwrapped:
+                        anchor, seq = unwrapped
                 # Otherwise, still make sure there's a space after the DISTINCT.
                 else:
                     anchor = modifier[0]
@@ -122,14 +124,19 @@ class Rule_ST08(BaseRule):
 
     def _remove_unneeded_brackets(
         self, context: RuleContext, bracketed: Segments
-    ) -> tuple[BaseSegment, ReflowSequence]:
+    ) -> Optional[tuple[BaseSegment, ReflowSequence]]:
         # Remove the brackets and strip any meta segments.
         anchor = bracketed.get()
         assert anchor
+        contents = self.filter_meta(anchor.segments)[1:-1]
+        if not contents:
+            # Empty brackets, i.e. `DISTINCT ()`: there is nothing to keep
+            # and a replace fix must have an edit.
+            return None
         seq = ReflowSequence.from_around_target(
             anchor,
             context.parent_stack[0],
             config=context.config,
             sides="before",
-        ).replace(anchor, self.filter_meta(anchor.segments)[1:-1])
+        ).replace(anchor, contents)
         return anchor, seq
